@@ -16,3 +16,7 @@ import SigpyVerif.Props.C14
 import SigpyVerif.Props.C08
 import SigpyVerif.Props.C02
 import SigpyVerif.Gen.EffectsOk
+import SigpyVerif.Props.C13
+import SigpyVerif.Props.C12
+import SigpyVerif.Props.C15
+import SigpyVerif.Props.C18
